@@ -1,28 +1,42 @@
 /-
 C09 — formatting is idempotent and preserves the program.
-PROPERTY THEOREMS ONLY (lemmas: Proofs/Format.lean; model: Martian/Format.lean).
+PROPERTY THEOREMS ONLY.  Models: Martian/Format.lean (quoteString, topoSort),
+Martian/FormatExp.lean (value expressions, tokenizer, reader), FormatExpText.lean
+(accepted texts), FormatCall.lean / FormatCall2.lean (call statements, return,
+retain, pipeline bodies), FormatDecl.lean (types, parameter lists, struct,
+filetype), FormatRes.lean (src line, resources incl. formatGB, stage retain),
+FormatStage.lean, FormatPipe.lean, FormatFile.lean.  Lemmas: Proofs/Format*.lean.
 
-Proved for all inputs: the call reordering (`topoSort`) is a permutation; the
-until-nothing-changes loop of `addNextDeps` (`closedTable`) ends in a fixed
-point of its round within its fuel, and the closed relation is therefore
-transitive on the calls, for every graph (`closedDeps_transitive`); under the
-single (decidable) hypothesis "closed relation is acyclic" (otherwise the Go
-code returns an error) the result of `topoSort` is in dependency order and a
-fixed point of the loop; the loop is the identity on any dependency order; and
-the string printer/lexer round trip `unquoteBytes (quoteString s) = some s`
-for every valid UTF-8 `s`.
-Value expressions (section ValueExpressions, model Martian/FormatExp.lean): for
-every well-formed expression the reader accepts the printed text and returns
-the expression up to `norm` (`parse_format_exp`), printing the result gives
-the same text (`format_exp_idem`), and the normal form is stable
-(`norm_stable`).  The keyword table and the `id` production the tokenizer
-model uses are re-read from the source (`keyword_table_current`,
-`id_tokens_current`).  Call statements without modifiers (section CallStatements,
-model Martian/FormatCall.lean): `parse_format_call`, `format_call_idem`.
-(That the model's closed table is the map the Go loop builds, that `fmt` is
-`FormatExp` and `parseValExp` is `ParseValExp` is tied by correspondence on
-generated inputs, every run.)  Not proved: comments, declaration layout beyond
-call statements, include expansion (monitors only); strconv's float printing/parsing (trusted).
+Sections (each: round trip `parse (format x) = some (norm x)` for every
+well-formed x of the modelled AST, idempotence `format (norm x) = format x`,
+stability of the normal form, lexing statement, non-vacuity examples by
+`decide +kernel`, negative witnesses):
+  (top)               quote/unquote of strings; topoSort (permutation; closure is
+                      a fixed point and transitive for every graph; dependency
+                      order and idempotence with the only hypothesis "no cycle");
+                      regenerated keyword table / id production (fail closed)
+  ValueExpressions    parse_format_exp, format_exp_idem, …          (from an AST)
+  CallStatements      calls without modifiers
+  Declarations        types, parameter lists, struct, filetype
+  StageClauses        formatGB_roundtrip, resources, retain, src line
+  PipelineStatements  full call statements, return, retain, bodies
+  StageDeclarations   parse_format_stage
+  PipelineDeclarations parse_format_pipeline, format_pipeline_idem (incl. the
+                      reordering of calls: closedDeps_least, relabelling)
+  WholeFile           parse_format_file, parse_source_any_order,
+                      format_preserves_program (comment-free files)
+  AcceptedTexts       from an ACCEPTED SOURCE TEXT (value expressions): the range
+                      of lexer and reader, parse_produces_wf_partial,
+                      format_preserves_accepted_exp_partial (the two hypotheses
+                      are the recorded findings F6b and F26)
+All other sections start from an AST satisfying the stated `wf…` predicate
+(print → read → print); for declaration-level SOURCE texts in non-canonical
+spelling the step text → AST is tied by correspondence only.
+Not proved: comments, include expansion (monitors only); strconv float
+printing/parsing (abstract: texts / `GOK`); the goyacc automaton (the readers
+are recursive-descent models tied by correspondence on generated, respelled
+and near-miss texts).  Theorems below a header `definitional unfoldings` are
+documentation of the model, not guarantees.
 -/
 import Martian.Format
 import Proofs.Format
@@ -58,7 +72,9 @@ theorem topoSort_perm (n : Nat) (edges : List (Nat × Nat)) :
 
 /-- The shift loop leaves an order alone in which no call depends on a later
 one — for every dependency relation and every fuel: a formatted pipeline is a
-fixed point of the reordering (stability). -/
+fixed point of the reordering.  (This is "identity on sorted input", NOT the
+stability the Go comment speaks of — the relative order of independent calls
+being preserved when something does move — for which there is no theorem.) -/
 theorem topoSort_stable (d : Dep) (f : Nat) (l : List Nat) (h : sortedFrom d l = true) :
     loop d f l 0 = l :=
   loop_sorted d f l 0 (by simpa using h)
@@ -169,8 +185,10 @@ U+FFFD. -/
 theorem invalid_byte_not_preserved :
     Martian.Lexer.unquoteBytes (quoteString [0xFF]) = some [0xEF, 0xBF, 0xBD] := by decide
 
-/-- Negative witness F6: written between bare quotes (as `src` commands and
-include paths were), `a"b` is not even a string token; quoted it is. -/
+/-- Historical negative witness F6 (the code it is about is gone: `SrcParam.format`
+and the `@include` lines call `quoteString` since the repair): written between
+bare quotes, as `src` commands and include paths were, `a"b` is not even a
+string token; quoted it is. -/
 theorem raw_emission_breaks :
     Martian.Lexer.matchString (emitRaw [0x61, 0x22, 0x62] ++ [0x2C]) = some [0x22, 0x61, 0x22] ∧
     Martian.Lexer.matchString (quoteString [0x61, 0x22, 0x62] ++ [0x2C]) = some (quoteString [0x61, 0x22, 0x62]) := by
@@ -178,12 +196,16 @@ theorem raw_emission_breaks :
 
 /-- the keyword table the tokenizer model uses is the one in tokenizer.go now:
 `Gen.tokKeywords` is re-read on every run from the `bytesPrefixString(b, X)` calls
-of `keywordToken` (text, token constant; source order; without `@include`) -/
-theorem keyword_table_current : Gen.tokKeywords = Martian.FormatExp.keywordTable := by decide
+of `keywordToken` (text, token constant; source order; without `@include`).  The first conjunct makes
+the obligation fail when the extractor no longer finds the pattern (it would otherwise fall back to
+the committed default, which is this very table): a new keyword is detected by this fact only. -/
+theorem keyword_table_current :
+    Gen.tokKeywords_extracted = true ∧ Gen.tokKeywords = Martian.FormatExp.keywordTable := by decide
 
 /-- … and the tokens the grammar's `id` production accepts besides `ID` are the
 alternatives of that production in grammar.y now (`Gen.idTokens`, source order) -/
-theorem id_tokens_current : Gen.idTokens = Martian.FormatExp.idTokens := by decide
+theorem id_tokens_current :
+    Gen.idTokens_extracted = true ∧ Gen.idTokens = Martian.FormatExp.idTokens := by decide
 
 
 /-! ## value expressions: printer / reader round trip
@@ -205,6 +227,11 @@ accepts the printed text and returns the expression up to the normalisations
 `norm` (a nil array prints as `null`; an integral float prints without `.`/`e`
 and reads back as an int; an empty struct literal reads back as an empty map). -/
 theorem parse_format_exp (e : Exp) (hw : wf e = true) (hv : isVal e = true) :
+    -- (starts from an AST: `wf` excludes two things the PARSER can produce - a string that is
+    -- not valid UTF-8 (F6b, `invalid_byte_not_preserved`) and the float `-0` (F26,
+    -- `negative_zero_not_wf`); the statement for accepted source TEXTS, with exactly these two
+    -- exceptions as hypotheses, is `format_preserves_accepted_exp_partial` in section AcceptedTexts;
+    -- the name is kept without `_partial` because other properties build on it)
     parseValExp (fmt [] e) = some (norm e) := by
   simp only [parseValExp, lexAll_fmt_top e hw, Option.bind_some]
   exact parseToks_toks e hw hv
@@ -449,9 +476,12 @@ theorem read_out_params (ps : List Param) (f : Nat) (rest : List Tok) (hw : ps.a
     (hr : headKw sOut rest = false) : pOutParams f (toksParams ps ++ rest) = some (ps, rest) :=
   pOutParams_toks ps f rest hw hm hf hr
 
+/-! ### definitional unfoldings (documentation of the model, not guarantees) -/
 /-- `TypeId.strlen` is the length of what `TypeId.writeTo` prints -/
 theorem typeLen_is_length (t : TypeId) : typeLen t = (fmtType t).length := typeLen_eq t
 
+/-! ### guarantees (continued) -/
+/-! ### definitional unfoldings (documentation of the model, not guarantees) -/
 /-- `measureParamsWidths` over several lists is `getWidths` of their concatenation,
 and the type column is wide enough for every parameter measured -/
 theorem measure_is_widths (pss : List (List Param)) :
@@ -459,6 +489,7 @@ theorem measure_is_widths (pss : List (List Param)) :
     ∀ p ∈ pss.flatten, typeLen p.type ≤ (widths pss.flatten).2.1 :=
   ⟨maxWidths_widths pss, fun p hp => typeLen_le_widths _ p hp⟩
 
+/-! ### guarantees (continued) -/
 /-- non-vacuity: a well-formed struct with a typed map of arrays of a dotted user
 type, a builtin, `map[]`, an id-like keyword as id and as type, help with an
 escape, an out name without help, a 40-byte id; the reader returns it from its
@@ -745,11 +776,13 @@ theorem wildcard_ends_bindings (p : List UInt8) (bs : List Bind) (e : Exp) (junk
     fmtBindStms p (bs ++ wildBind e :: junk) = fmtBindStms p (bs ++ [wildBind e]) :=
   fmtBindStms_trunc p bs e junk h
 
+/-! ### definitional unfoldings (documentation of the model, not guarantees) -/
 /-- the model extends `Martian.FormatCall`: same text for a call without wildcard and modifiers -/
 theorem format_call2_extends_call (c : Call) (h : c.binds.all wfBind = true) :
     fmtCall2 [] ⟨c.decId, c.id, c.binds, none, noMods⟩ = fmtCall c :=
   fmtCall2_plain c h
 
+/-! ### guarantees (continued) -/
 /-- **Round trip, `return (…)`**, followed by any text that lexes -/
 theorem parse_format_return (r : Ret) (rest : List UInt8) (ts : List Tok) (hw : wfRet r = true)
     (hrest : lexAll rest = some ts) :
@@ -899,11 +932,13 @@ example : stageEnd [] = true ∧ stageEnd [.reserved sStage] = true ∧ stageEnd
     stageEnd [.id sFiletype] = true ∧ stageEnd [.reserved [0x70, 0x69, 0x70, 0x65, 0x6C, 0x69, 0x6E, 0x65]] = true ∧
     stageEnd [.reserved [0x63, 0x61, 0x6C, 0x6C]] = true ∧ stageEnd [.id sUsing] = false := by decide
 
+/-! ### definitional unfoldings (documentation of the model, not guarantees) -/
 /-- the `split using (` spelling reads as `split (` -/
 theorem read_split_using (f : Nat) (ts : List Tok) :
     pSplit f (tRP :: .id sSplit :: .id sUsing :: tLP :: ts) = pSplit f (tRP :: .id sSplit :: tLP :: ts) :=
   pSplit_using f ts
 
+/-! ### guarantees (continued) -/
 /-- non-vacuity (`exampleStage`, `exampleStage30`: Proofs/FormatStageParse.lean): a well-formed stage that uses every clause — in and out parameters (named and
 unnamed, help, out name), chunk parameters, an id of 31 bytes and a help text of 21 bytes (over
 the 30/20 thresholds: the chunk parameters are laid out with the widths of the chunk lists alone,
@@ -1230,6 +1265,7 @@ theorem format_preserves_program (w : Nat → Bytes) (hws : ∀ k, (w k).all isS
   · rw [h2]; exact parseFile_fmtFile _ hwf
   · rw [h2]; exact fmtFile_norm _ hwf
 
+/-! ### definitional unfoldings (documentation of the model, not guarantees) -/
 /-- a well-formed source distributes to a well-formed file, and the declarations of a file in
 printing order distribute back to it -/
 theorem distribute_facts (incs : List Bytes) (ds : List Decl) (call : Option Call2) (f : File) :
@@ -1237,6 +1273,7 @@ theorem distribute_facts (incs : List Bytes) (ds : List Decl) (call : Option Cal
     distribute f.includes (declsOf f) f.call = f :=
   ⟨wfFile_distribute incs ds call, distribute_declsOf f⟩
 
+/-! ### guarantees (continued) -/
 /-- the printed file lexes as `toksFile f`, whatever text follows -/
 theorem lex_format_file (f : File) (rest : Bytes) (hw : wfFile f = true) :
     lexAll (fmtFile f ++ rest) = (lexAll rest).map (toksFile f ++ ·) :=
@@ -1249,11 +1286,13 @@ theorem read_file (raw : Bool) (incs : List Bytes) (ds : List Decl) (call : Opti
       some (distribute incs (ds.map (readDeclB raw)) (call.map normCall2)) :=
   pFile_toks raw incs ds call hw
 
+/-! ### definitional unfoldings (documentation of the model, not guarantees) -/
 /-- `@include` is one token when a non-word byte (or the end of the input) follows -/
 theorem lex_include (rest : Bytes) (hr : WordEnd rest) :
     lexAll (sAtInclude ++ rest) = (lexAll rest).map (Tok.reserved sAtInclude :: ·) :=
   lexOK_atInclude rest hr
 
+/-! ### guarantees (continued) -/
 /-- ASCII text as bytes (for the examples) -/
 def ascii (s : String) : List UInt8 := s.toList.map fun c => UInt8.ofNat c.toNat
 
